@@ -277,6 +277,49 @@ pub fn decompress_all(data: &[u8], block: usize) -> Result<(Vec<u8>, CompLayout)
     Ok((out, CompLayout { blocks, sizes_at: fat, sizes_len: flen, last_block_size: last }))
 }
 
+/// Sizes footer only (no block is decompressed): where each compressed block lies and how long its plaintext is.
+/// For streams whose plaintext is too large to materialise.
+pub fn comp_layout(data: &[u8], block: usize) -> Result<CompLayout, String> {
+    if data.len() < 4 {
+        return Err("compressed stream shorter than its length field".into());
+    }
+    let flen = u32le(data, data.len() - 4).unwrap() as usize;
+    if flen + 4 > data.len() || flen < 12 {
+        return Err(format!("bad sizes footer length {flen}"));
+    }
+    let fat = data.len() - 4 - flen;
+    let n = usize::try_from(u64le(data, fat).ok_or("sizes footer")?).map_err(|_| "sizes footer")?;
+    if n > data.len() || 8 + 4 * n + 4 != flen {
+        return Err(format!("sizes footer length {flen} does not match count {n}"));
+    }
+    let last = u32le(data, fat + 8 + 4 * n).ok_or("sizes footer")?;
+    let mut blocks = Vec::new();
+    let mut p = 0usize;
+    for i in 0..n {
+        let sz = u32le(data, fat + 8 + 4 * i).ok_or("sizes footer")? as usize;
+        if p.checked_add(sz).is_none_or(|e| e > fat) {
+            return Err("compressed sizes exceed the stream".into());
+        }
+        blocks.push((p, sz, if i + 1 < n { block } else { last as usize }));
+        p += sz;
+    }
+    if p != fat {
+        return Err(format!("{} stray bytes between the last block and the sizes footer", fat - p));
+    }
+    Ok(CompLayout { blocks, sizes_at: fat, sizes_len: flen, last_block_size: last })
+}
+
+/// One block of a compressed stream, decompressed on its own
+pub fn decompress_block(data: &[u8], lay: &CompLayout, i: usize) -> Result<Vec<u8>, String> {
+    let (off, sz, want) = *lay.blocks.get(i).ok_or("no such block")?;
+    let mut dec = Vec::new();
+    brotli::Decompressor::new(&data[off..off + sz], 4096).read_to_end(&mut dec).map_err(|e| format!("brotli block {i}: {e}"))?;
+    if dec.len() != want {
+        return Err(format!("block {i} decodes to {} bytes, expected {want}", dec.len()));
+    }
+    Ok(dec)
+}
+
 pub fn compress_all(plain: &[u8], block: usize, level: u32) -> Vec<u8> {
     let mut out = Vec::new();
     let mut sizes: Vec<u32> = Vec::new();
